@@ -77,7 +77,8 @@ Section Phase0.
                  | Some sts => match nthN sts p with None => None | Some _ => Some (updN sts p g) end
                  end) parts (Some sts).
 
-  Definition process_att (st : BeaconState) (is_prev : bool) (target_root : bytes)
+  (* `note` is the closure's test `epoch == prevEpoch` (true for BOTH calls in the genesis epoch); `is_prev` selects the flags *)
+  Definition process_att (st : BeaconState) (note is_prev : bool) (target_root : bytes)
              (acc : option (list AttesterStatus)) (att : value) : option (list AttesterStatus) :=
     match acc with
     | None => None
@@ -90,7 +91,7 @@ Section Phase0.
               let parts := select_bits (pa_bits att) committee in
               let tgt := bytes_eqb (cp_root (ad_target data)) target_root in
               let head := bytes_eqb (ad_beacon_block_root data) att_root in
-              match (if is_prev then update_participants (note_inclusion (pa_inclusion_delay att) (pa_proposer_index att)) parts sts
+              match (if note then update_participants (note_inclusion (pa_inclusion_delay att) (pa_proposer_index att)) parts sts
                      else Some sts) with
               | None => None
               | Some sts => update_participants (mark is_prev tgt head) parts sts
@@ -99,14 +100,14 @@ Section Phase0.
         end
     end.
 
-  Definition process_epoch_atts (st : BeaconState) (atts : list value) (epoch : N) (is_prev : bool)
+  Definition process_epoch_atts (st : BeaconState) (atts : list value) (epoch prev_epoch : N) (is_prev : bool)
              (sts : list AttesterStatus) : option (list AttesterStatus) :=
     match epoch_start_slot_go c epoch with
     | None => None
     | Some start =>
         match block_root_at_slot_go st start with
         | None => None
-        | Some target_root => fold_left (process_att st is_prev target_root) atts (Some sts)
+        | Some target_root => fold_left (process_att st (epoch =? prev_epoch) is_prev target_root) atts (Some sts)
         end
     end.
 
@@ -129,10 +130,10 @@ Section Phase0.
     let pe := epc_prev_epoch epc in
     let ce := epc_cur_epoch epc in
     let sts := map (init_status pe) flats in
-    match process_epoch_atts st (previous_epoch_attestations st) pe true sts with
+    match process_epoch_atts st (previous_epoch_attestations st) pe pe true sts with
     | None => None
     | Some sts =>
-        match process_epoch_atts st (current_epoch_attestations st) ce false sts with
+        match process_epoch_atts st (current_epoch_attestations st) ce pe false sts with
         | None => None
         | Some sts =>
             let '(s, t, h, ct) := fold_left stake_step0 (combine sts flats) (0, 0, 0, 0) in
